@@ -11,6 +11,7 @@ void runLimits(const Opts&, long, CaseLog&);
 void runThreadsRound(const Opts&, long, CaseLog&);
 void runSaveSeq(const Opts&, long, CaseLog&);
 void runFpProbe(const Opts&, long, CaseLog&);
+void runSizedSave(const Opts&, long, CaseLog&);
 void runPlainSave(const Opts&, long, CaseLog&);
 int modeMain(const Opts& o) {
     if (o.mode == "hist") return runCases(o, runHistCase);
@@ -24,6 +25,7 @@ int modeMain(const Opts& o) {
     if (o.mode == "threads") return runCases(o, runThreadsRound);
     if (o.mode == "saveseq") return runCases(o, runSaveSeq);
     if (o.mode == "fpprobe") return runCases(o, runFpProbe);
+    if (o.mode == "sizedsave") return runCases(o, runSizedSave);
     if (o.mode == "plainsave") return runCases(o, runPlainSave);
     fprintf(stderr, "unknown mode %s\n", o.mode.c_str());
     return 2;
